@@ -27,6 +27,9 @@ pub fn status_code(s: InputStatus) -> u8 {
     }
 }
 
+/// the `window` argument of `execute` for spectator sessions (they never save or load)
+pub const SPECTATOR_WINDOW: usize = usize::MAX / 4;
+
 pub type FrameInputs = Vec<(u32, u8)>;
 
 pub struct Game {
@@ -98,6 +101,14 @@ impl Game {
         self.call_sims.clear();
         self.call_loads.clear();
         self.call_saves.clear();
+        if std::env::var_os("VERIF_SIM_TRACE").is_some() {
+            let t: Vec<String> = requests.iter().map(|r| match r {
+                GgrsRequest::SaveGameState { frame, .. } => format!("S{frame}"),
+                GgrsRequest::LoadGameState { frame, .. } => format!("L{frame}"),
+                GgrsRequest::AdvanceFrame { inputs } => format!("A({})", inputs.iter().map(|(i, s)| format!("{}{}", i.0, ["C", "P", "D"][status_code(*s) as usize])).collect::<Vec<_>>().join(",")),
+            }).collect();
+            eprintln!("TRACE game@{} {}", self.frame, t.join(" "));
+        }
         for req in requests {
             match req {
                 GgrsRequest::SaveGameState { cell, frame } => {
@@ -105,6 +116,9 @@ impl Game {
                     self.req_digest = mix(self.req_digest, 0x5a00_0000 ^ frame as u64);
                     if window == 0 {
                         self.hit("C04", "lockstep-save", format!("SaveGameState({frame}) issued with max_prediction = 0"));
+                    }
+                    if window == SPECTATOR_WINDOW {
+                        self.hit("C06", "spectator-save", format!("a spectator session issued SaveGameState({frame})"));
                     }
                     if frame != self.frame {
                         self.hit("C02", "save-frame", format!("SaveGameState names frame {frame} but the game is at frame {}", self.frame));
@@ -128,6 +142,9 @@ impl Game {
                     self.req_digest = mix(self.req_digest, 0x10ad_0000 ^ frame as u64);
                     if window == 0 {
                         self.hit("C04", "lockstep-load", format!("LoadGameState({frame}) issued with max_prediction = 0"));
+                    }
+                    if window == SPECTATOR_WINDOW {
+                        self.hit("C06", "spectator-load", format!("a spectator session issued LoadGameState({frame})"));
                     }
                     if frame >= self.frame || frame < 0 {
                         self.hit("C02", "load-not-earlier", format!("LoadGameState({frame}) while the game is at frame {}", self.frame));
@@ -165,7 +182,7 @@ impl Game {
                     if fi.len() != self.players {
                         self.hit("C02", "advance-arity", format!("AdvanceFrame carries {} inputs for {} players", fi.len(), self.players));
                     }
-                    if self.frame == 0 && !self.advanced_any && window > 0 && !self.saved_zero_before_advance {
+                    if self.frame == 0 && !self.advanced_any && window > 0 && window != SPECTATOR_WINDOW && !self.saved_zero_before_advance {
                         self.hit("C02", "no-save-before-first-advance", "the first simulation of frame 0 was not preceded by SaveGameState(0)".to_string());
                     }
                     self.advanced_any = true;
